@@ -23,7 +23,7 @@ ISPECS = []
 @ispec("32<[ disp1(16) disp2(8) {5d} ]", mnemonic="JL")
 def tricore_branch(obj, disp1, disp2):
     v = env.cst(((disp2<<16)+disp1)<<1,24)
-    obj.operands = [disp.signextend(32)]
+    obj.operands = [v.signextend(32)]
     obj.type = type_control_flow
 
 @ispec("32<[ disp1(16) disp2(8) {ed} ]", mnemonic="CALLA")
